@@ -816,7 +816,8 @@ func (sec *stdSecHandler) authenticate(passwd string) (Perm, error) {
 	if sec.R < 5 {
 		padded, err := padPasswd(passwd)
 		if err != nil {
-			return 0, err
+			// no file has a password which cannot be encoded
+			return 0, &AuthenticationError{sec.ID}
 		}
 		err = sec.authenticateOwner(padded)
 		if err == nil {
@@ -829,7 +830,8 @@ func (sec *stdSecHandler) authenticate(passwd string) (Perm, error) {
 	} else {
 		prepared, err := utf8Passwd(passwd)
 		if err != nil {
-			return 0, err
+			// no file has a password which cannot be encoded
+			return 0, &AuthenticationError{sec.ID}
 		}
 		err = sec.authenticateOwner6(prepared)
 		if err == nil {
